@@ -373,7 +373,16 @@ def run(R):
     inst = mc.qual + ' :: fields collected in declaration order, overrides keep their position'
     lp = [n for n in mc.cfg.nodes if n.kind == 'for' and ast.unparse(n.ast.iter) in ('cls.__dict__', 'attrs', 'cls.__dict__.keys()', 'attrs.keys()')]
     apps = [c for (n, c) in calls_in_ctx(mc, attr='append') if ast.unparse(c.func.value) == 'cls._encoded_fields']
-    repl = [n for n in mc.cfg.nodes if n.kind == 'stmt' and isinstance(n.ast, ast.Assign) and ast.unparse(n.ast.targets[0]).startswith('cls._encoded_fields[index_dict[')]
+    def _is_repl(n):
+        if n.kind != 'stmt' or not isinstance(n.ast, ast.Assign) or not isinstance(n.ast.targets[0], ast.Subscript) \
+                or ast.unparse(n.ast.targets[0].value) != 'cls._encoded_fields':
+            return False
+        sl = n.ast.targets[0].slice
+        if ast.unparse(sl).startswith('index_dict['):
+            return True
+        # the remembered position read into a local first (`pos = index_dict.get(name)`)
+        return isinstance(sl, ast.Name) and any(s_.kind == 'expr' and 'index_dict' in ast.unparse(s_.expr) for s_ in mc.sources(n, sl))
+    repl = [n for n in mc.cfg.nodes if _is_repl(n)]
     if len(lp) == 1 and len(apps) == 2 and len(repl) == 2 and not any(isinstance(x, ast.Call) and callee_attr(x) in ('sort', 'sorted', 'reverse', 'insert') for x in ast.walk(mc.f.node)):
         R.ok('C08.LOP.1', inst, site(mc, lp[0].ast))
     else:
